@@ -222,7 +222,9 @@ fn check_snapshots(w: &World, m: usize, g: usize, mon: &mut Mon, ctx: &str) {
         let at_epoch = w.log[real_idx].at.1;
         let _ = b;
         applied.retain(|e, _| *e < at_epoch);
-        if !is_merge {
+        // rolled back to `at_epoch` and then refused: nothing was applied there
+        let refused_after_rollback = _a.1 == at_epoch;
+        if !is_merge && !refused_after_rollback {
             applied.insert(at_epoch, w.log[real_idx].ev.id.to_hex());
         }
     }
